@@ -143,6 +143,85 @@ Definition is_style_elem (c : xml) : bool := qname_eqb (x_tag c) T_style.
 (* state of the children loop *)
 Inductive lres := LErr (code : Z) | LDone (iend : option Q) (kids : list mnode) (anims : list anim) (pf : bool).
 
+(* the children loop of process, for a parent of class k whose children are read by [proc] *)
+Section Children.
+  Variable proc : pctx -> xml -> pres.
+  Variables (k : ekind) (par : bool) (dbegin : Q) (preserve : bool) (lang : text).
+
+  Fixpoint children_loop (l : list xml) (iend : option Q) (kids : list mnode) (anims : list anim) (pf : bool)
+                         {struct l} : lres :=
+    match l with
+    | [] => LDone iend kids anims pf
+    | c :: l' =>
+        (* nested styling of a region does not take part in temporal processing (`continue`) *)
+        if ekind_eqb k KRegion && is_style_elem c then children_loop l' iend kids anims pf else
+        match proc (mkPctx par iend dbegin preserve lang (negb (ekind_eqb k KSet))) c with
+        | PErr e => LErr e
+        | PSkip =>
+            match x_tail c with
+            | Some t => if k_is_mixed k && par then children_loop l' None (kids ++ [anon_span k preserve lang t]) anims pf
+                        else children_loop l' iend kids anims pf
+            | None => children_loop l' iend kids anims pf
+            end
+        | POk r =>
+            let iend' :=
+              if par then
+                match iend, r_des_end r with
+                | Some a, Some ce => Some (Qmax a (ce + dbegin)%Q)
+                | _, _ => None
+                end
+              else
+                match r_des_end r with Some ce => Some (ce + dbegin)%Q | None => None end in
+            (* skip child if it has no temporal extent *)
+            let keep :=
+              negb (ekind_eqb (r_kind r) KSet) &&
+              match r_des_end r with None => true | Some ce => negb (Qeq_bool (r_des_begin r) ce) end in
+            let kids' := match r_node r with
+                         | Some n => if keep then kids ++ [n] else kids
+                         | None => kids
+                         end in
+            let anims' := match r_anim r with Some a => anims ++ [a] | None => anims end in
+            match x_tail c with
+            | Some t => if k_is_mixed k && par
+                        then children_loop l' None (kids' ++ [anon_span k preserve lang t]) anims' (pf || r_pushfail r)
+                        else children_loop l' iend' kids' anims' (pf || r_pushfail r)
+            | None => children_loop l' iend' kids' anims' (pf || r_pushfail r)
+            end
+        end
+    end.
+End Children.
+
+(* temporal end processing *)
+Definition desired_end (ibegin dbegin : Q) (eend edur : option Q) (iend : option Q) : option Q :=
+  match eend, edur with
+  | Some e_, Some d_ => Some (Qmin (dbegin + d_) (ibegin + e_))%Q
+  | None, Some d_ => Some (dbegin + d_)%Q
+  | Some e_, None => Some (ibegin + e_)%Q
+  | None, None => iend
+  end.
+
+Definition read_region (ev : env) (k : ekind) (attrs : list (qname * text)) : option text :=
+  if k_has_region k then
+    match get_attr attrs A_region with
+    | Some r => if mem_text r (e_regions ev) then Some r else None
+    | None => None
+    end
+  else None.
+
+Definition read_par (attrs : list (qname * text)) : bool :=
+  match get_attr attrs A_timeContainer with
+  | Some v => negb (text_eqb v V_seq)
+  | None => true
+  end.
+
+(* implicit begin: 0 in a par parent, else parent.implicit_end - parent.desired_begin (TypeError when it is None) *)
+Definition implicit_begin (pc : pctx) : option Q :=
+  if pc_par pc then Some 0%Q
+  else match pc_impl_end pc with
+       | None => None
+       | Some ie => Some (ie - pc_des_begin pc)%Q
+       end.
+
 Fixpoint process (ev : env) (pc : pctx) (x : xml) {struct x} : pres :=
   match x with
   | X tag attrs txt tail cs =>
@@ -153,17 +232,8 @@ Fixpoint process (ev : env) (pc : pctx) (x : xml) {struct x} : pres :=
       if ekind_eqb k KRegion && (match get_attr attrs A_id with None => true | Some _ => false end) then PSkip else
       let lang := if ekind_eqb k KSet then pc_lang pc else read_lang attrs (pc_lang pc) in
       let preserve := if ekind_eqb k KSet then pc_preserve pc else read_space attrs (pc_preserve pc) in
-      let region :=
-        if k_has_region k then
-          match get_attr attrs A_region with
-          | Some r => if mem_text r (e_regions ev) then Some r else None
-          | None => None
-          end
-        else None in
-      let par := match get_attr attrs A_timeContainer with
-                 | Some v => negb (text_eqb v V_seq)
-                 | None => true
-                 end in
+      let region := read_region ev k attrs in
+      let par := read_par attrs in
       match read_time ev (get_attr attrs A_begin) with
       | None => PErr 2
       | Some ebegin =>
@@ -173,59 +243,16 @@ Fixpoint process (ev : env) (pc : pctx) (x : xml) {struct x} : pres :=
       match read_time ev (get_attr attrs A_end) with
       | None => PErr 2
       | Some eend =>
-      match (if pc_par pc then Some 0%Q
-             else match pc_impl_end pc with
-                  | None => None                                  (* None - Fraction: TypeError *)
-                  | Some ie => Some (ie - pc_des_begin pc)%Q
-                  end) with
+      match implicit_begin pc with
       | None => PErr 1
       | Some ibegin =>
         let dbegin := (ibegin + opt_or_zero ebegin)%Q in
         let iend0 := if k_indefinite_in_par k && pc_par pc then None else Some dbegin in
         let mixed := k_is_mixed k && par in
-        let '(kids0, iend1) :=
-          match txt with
-          | Some t => if mixed then ([anon_span k preserve lang t], None) else ([], iend0)
-          | None => ([], iend0)
-          end in
-        let fix loop (l : list xml) (iend : option Q) (kids : list mnode) (anims : list anim) (pf : bool) {struct l} : lres :=
-          match l with
-          | [] => LDone iend kids anims pf
-          | c :: l' =>
-              if ekind_eqb k KRegion && is_style_elem c then loop l' iend kids anims pf else
-              match process ev (mkPctx par iend dbegin preserve lang (negb (ekind_eqb k KSet))) c with
-              | PErr e => LErr e
-              | PSkip =>
-                  match x_tail c with
-                  | Some t => if mixed then loop l' None (kids ++ [anon_span k preserve lang t]) anims pf
-                              else loop l' iend kids anims pf
-                  | None => loop l' iend kids anims pf
-                  end
-              | POk r =>
-                  let iend' :=
-                    if par then
-                      match iend, r_des_end r with
-                      | Some a, Some ce => Some (Qmax a (ce + dbegin)%Q)
-                      | _, _ => None
-                      end
-                    else
-                      match r_des_end r with Some ce => Some (ce + dbegin)%Q | None => None end in
-                  let keep :=
-                    negb (ekind_eqb (r_kind r) KSet) &&
-                    match r_des_end r with None => true | Some ce => negb (Qeq_bool (r_des_begin r) ce) end in
-                  let kids' := match r_node r with
-                               | Some n => if keep then kids ++ [n] else kids
-                               | None => kids
-                               end in
-                  let anims' := match r_anim r with Some a => anims ++ [a] | None => anims end in
-                  match x_tail c with
-                  | Some t => if mixed then loop l' None (kids' ++ [anon_span k preserve lang t]) anims' (pf || r_pushfail r)
-                              else loop l' iend' kids' anims' (pf || r_pushfail r)
-                  | None => loop l' iend' kids' anims' (pf || r_pushfail r)
-                  end
-              end
-          end in
-        match loop cs iend1 kids0 [] false with
+        (* process text nodes *)
+        let kids0 := match txt with Some t => if mixed then [anon_span k preserve lang t] else [] | None => [] end in
+        let iend1 := match txt with Some t => if mixed then None else iend0 | None => iend0 end in
+        match children_loop (process ev) k par dbegin preserve lang cs iend1 kids0 [] false with
         | LErr e => PErr e
         | LDone iend kids anims pf =>
             let '(pushed, ok) := if k_has_children k then push_children k kids else ([], true) in
@@ -236,13 +263,7 @@ Fixpoint process (ev : env) (pc : pctx) (x : xml) {struct x} : pres :=
                      (if ekind_eqb k KSet then None else Some (MElem k rid None None preserve lang region anims pushed))
                      None true)
             else
-            let dend :=
-              match eend, edur with
-              | Some e_, Some d_ => Some (Qmin (dbegin + d_) (ibegin + e_))%Q
-              | None, Some d_ => Some (dbegin + d_)%Q
-              | Some e_, None => Some (ibegin + e_)%Q
-              | None, None => iend
-              end in
+            let dend := desired_end ibegin dbegin eend edur iend in
             let mb := if k_has_timing k then (if Qeq_bool dbegin 0%Q then None else Some dbegin) else None in
             let me := if k_has_timing k then dend else None in
             if ekind_eqb k KSet then
